@@ -185,10 +185,10 @@ package slog
 //@   ensures [C10.set] s.extraFrames == extraFrames
 
 //@ func (*Entry).withSkip
-//@   props C10
+//@   props C10 C14
 //@   requires s != nil
 //@   assigns s.extraFrames
-//@   ensures [C10.set] s.extraFrames == extraFrames
+//@   ensures [C10.C14.set] s.extraFrames == extraFrames
 //@   ensures [C10.ret] result == s
 
 //@ func (*Entry).ResetContextKeys
